@@ -103,7 +103,11 @@ def model_sampling(answers, default):
             raise RuntimeError("model does not terminate")
 
 
+OTHER_PROTOCOL = set()
+
+
 def eval_random(case):
+    OTHER_PROTOCOL.clear()
     answers = [int(t, 16) for t in case["answers"]]
     default = int(case["default"], 16)
     a = int(case["a"], 16)
@@ -118,9 +122,11 @@ def eval_random(case):
 
             def answer(n, stream=stream, reqs=reqs):
                 reqs.append(n)
-                if n != 8 or len(reqs) > 400:
-                    return b"\0" * n          # unexpected request shape: reported below
-                return next(stream, default).to_bytes(8, "little")
+                if len(reqs) > 400:
+                    return b"\0" * n          # horizon: reported below
+                # requests of another size than the digit protocol's 8 bytes are served from the same stream, 8 bytes at a time
+                out = b"".join(next(stream, default).to_bytes(8, "little") for _ in range((n + 7) // 8))
+                return out[:n]
             cb = L.rng(answer)
             yb = L.buf(32, b"\xCD" * 32)
             Bn = L.f12(base(a))
@@ -140,7 +146,14 @@ def eval_random(case):
             gy = int.from_bytes(yb.raw, "little")
             if gy >= ref.r:
                 msgs.append("%s:%s returned y >= r" % (cfg, routine))
-            if gy != y:
+            # The property fixes the DISTRIBUTION of y (uniform on [0, r)), not the protocol by which the random source is consumed. The
+            # exact-rejection-sampling model below is the one of the digit protocol (8-byte requests, one base-|x| digit each); a library
+            # that draws y in another way (one 32-byte request with rejection, say) is only held to the protocol-independent
+            # post-conditions: y < r, digits consistent with y, result = base^y, termination.
+            digit_protocol = all(n == 8 for n in reqs)
+            if not digit_protocol:
+                OTHER_PROTOCOL.add("%s:%s" % (routine, sorted(set(reqs))))
+            if digit_protocol and gy != y:
                 msgs.append("%s:%s returned y = %x, exact rejection sampling of the stream gives %x" % (cfg, routine, gy, y))
             if out is not None:
                 if exp is None or exp[0] != gy:
@@ -261,6 +274,8 @@ def run_shard(ctx, shard):
             dev = sum(1 for v in s if v != default)
             rej = sum(1 for v in s if v >= X)
             ctx.ok(True, "random:dev%d:rej%d" % (min(dev, 3), min(rej, 2)), n=3 * len(case["cfgs"]))
+            for o in sorted(OTHER_PROTOCOL):
+                ctx.outcomes["random:not-the-digit-protocol(post-conditions only):" + o] += 1
             ctx.sample(case, limit=1)
             if msgs:
                 ctx.fail(case, "; ".join(msgs[:4]), sig="random:" + msgs[0].split(":")[1].split(" ")[0])
